@@ -234,34 +234,40 @@ let handle_fn kvs =
 
 let () =
   let ic = if Array.length Sys.argv > 1 then open_in Sys.argv.(1) else stdin in
-  (try
-     while true do
-       let line = input_line ic in
-       let line = String.trim line in
-       if line <> "" && line.[0] <> '#' then begin
-         let sp = try String.index line ' ' with Not_found -> String.length line in
-         let cmd = String.sub line 0 sp in
-         let kvs = kv line in
-         match cmd with
-         | "T" -> sty := (if get kvs "ty" = "f32" then F32 else F64)
-         | "ROW" -> rows := samples_of (get kvs "v") :: !rows
-         | "UNIT" -> Hashtbl.replace unit_tbl (str_samples (samples_of (get kvs "i"))) (samples_of (get kvs "o"))
-         | "NEW" -> handle_new kvs
-         | "FN" -> handle_fn kvs
-         | "PIB" -> do_op (OpPib (chans_of (get kvs "in"), chans_of (get kvs "out"), mask_of (get kvs "mask")))
-         | "PROCESS" -> do_op (OpProcess (chans_of (get kvs "in"), mask_of (get kvs "mask")))
-         | "PARTIALINTO" ->
-           let wi = if get kvs "in" = "none" then None else Some (chans_of (get kvs "in")) in
-           do_op (OpPartialInto (wi, chans_of (get kvs "out"), mask_of (get kvs "mask")))
-         | "PARTIAL" ->
-           let wi = if get kvs "in" = "none" then None else Some (chans_of (get kvs "in")) in
-           do_op (OpPartial (wi, mask_of (get kvs "mask")))
-         | "SETRATIO" -> do_op (OpSetRatio (c_of_hex (get kvs "x"), get kvs "ramp" = "1"))
-         | "SETREL" -> do_op (OpSetRel (c_of_hex (get kvs "x"), get kvs "ramp" = "1"))
-         | "SETCHUNK" -> do_op (OpSetChunk (geti kvs "n"))
-         | "RESET" -> do_op OpReset
-         | c -> failwith ("unknown command " ^ c)
-       end
-     done
-   with End_of_file -> ());
+  let lines = ref [] in
+  (try while true do lines := String.trim (input_line ic) :: !lines done with End_of_file -> ());
+  let lines = List.filter (fun l -> l <> "" && l.[0] <> '#') (List.rev !lines) in
+  let cmd_of line = let sp = try String.index line ' ' with Not_found -> String.length line in String.sub line 0 sp in
+  List.iter (fun line -> if cmd_of line = "T" then sty := (if get (kv line) "ty" = "f32" then F32 else F64)) lines;
+  (* pass 1: the oracle table (recorded FFT unit results may follow the operation that produced them) *)
+  List.iter (fun line ->
+      if cmd_of line = "UNIT" then
+        let kvs = kv line in
+        Hashtbl.replace unit_tbl (str_samples (samples_of (get kvs "i"))) (samples_of (get kvs "o")))
+    lines;
+  (* pass 2 *)
+  List.iter (fun line ->
+      let cmd = cmd_of line in
+      let kvs = kv line in
+      if not (!dead && cmd <> "FN") then
+      match cmd with
+      | "T" -> sty := (if get kvs "ty" = "f32" then F32 else F64)
+      | "ROW" -> rows := samples_of (get kvs "v") :: !rows
+      | "UNIT" -> ()
+      | "NEW" -> handle_new kvs
+      | "FN" -> handle_fn kvs
+      | "PIB" -> do_op (OpPib (chans_of (get kvs "in"), chans_of (get kvs "out"), mask_of (get kvs "mask")))
+      | "PROCESS" -> do_op (OpProcess (chans_of (get kvs "in"), mask_of (get kvs "mask")))
+      | "PARTIALINTO" ->
+        let wi = if get kvs "in" = "none" then None else Some (chans_of (get kvs "in")) in
+        do_op (OpPartialInto (wi, chans_of (get kvs "out"), mask_of (get kvs "mask")))
+      | "PARTIAL" ->
+        let wi = if get kvs "in" = "none" then None else Some (chans_of (get kvs "in")) in
+        do_op (OpPartial (wi, mask_of (get kvs "mask")))
+      | "SETRATIO" -> do_op (OpSetRatio (c_of_hex (get kvs "x"), get kvs "ramp" = "1"))
+      | "SETREL" -> do_op (OpSetRel (c_of_hex (get kvs "x"), get kvs "ramp" = "1"))
+      | "SETCHUNK" -> do_op (OpSetChunk (geti kvs "n"))
+      | "RESET" -> do_op OpReset
+      | c -> failwith ("unknown command " ^ c))
+    lines;
   if !unit_missing > 0 then Printf.printf "UNITMISS %d\n" !unit_missing
